@@ -173,6 +173,20 @@ def rule_next(ck):
                     (o.ok('dominated by an assignment / None-test of n_cat') if guarded else
                      o.fail('self.n_cat may still be None here (forecast built from a list of catalogs without n_cat): `%s` then fails '
                             'on the very first next()' % u(stmt_of(x))[:60]))
+    # every catalog of the source is yielded: no handler inside __next__ answers an error by moving on to the next catalog, and the
+    # handler around next(<stream>) is there for the end of the stream only
+    ck.clause('D1')
+    o = ck.ob('C13-D1.noskip', f, 'no catalog is skipped on an error', f.node)
+    skips = [c for c in all_nodes(f) if isinstance(c, ast.Call) and u(c.func) in ('self.__next__', 'next') and (u(c.func) == 'self.__next__' or (c.args and u(c.args[0]) == 'self'))]
+    (o.fail('`%s` inside __next__: a catalog whose filtering raised is left out of the pass, so the number of catalogs and the counts differ '
+            'from the source' % u(skips[0])) if skips else o.ok())
+    for h in [x for x in all_nodes(f) if isinstance(x, ast.Try)]:
+        if any(isinstance(c, ast.Call) and u(c.func) == 'next' and c.args and 'catalogs' in u(c.args[0]) for st in h.body for c in ast.walk(st)):
+            oo = ck.ob('C13-D1.endonly', f, 'the handler around next(catalogs) catches the end of the stream only', h)
+            wide = [hh for hh in h.handlers if hh.type is None or any(w in u(hh.type) for w in ('Exception', 'BaseException', 'ValueError', 'RuntimeError'))]
+            (oo.fail('`except %s` around next(self.catalogs): an error of the loader (a file whose catalog ids decrease is rejected with '
+                     'ValueError) is taken for the end of the pass, and the truncated forecast is accepted' % (u(wide[0].type) if wide[0].type is not None else ''))
+             if wide else oo.ok('StopIteration'))
     # D4 accumulators
     ck.clause('D4')
     ret_nodes = [n for n in cfg.nodes if n.kind == 'return' and n.ast.value is not None]
